@@ -167,7 +167,21 @@ def run_selftest(prop: str, root: str) -> dict:
     except ModuleNotFoundError:
         return {"mutants": 0, "caught": 0, "twins": 0, "quiet": 0, "missed": [], "noisy": [], "inapplicable": [], "details": []}
     mutants: list[Variant] = getattr(mod, "MUTANTS", [])
-    twins: list[Variant] = getattr(mod, "TWINS", [])
+    twins: list[Variant] = list(getattr(mod, "TWINS", []))
+    # the behaviour-preserving refactorings written by sub-agents (twins8/, DESIGN 12.11): the three of this property and every one that
+    # made a check of this property fail when it was first run. Kept as silent twins; one whose text no longer matches the tree is
+    # counted as inapplicable, not as a failure.
+    try:
+        import json
+
+        t8 = os.path.join(os.path.dirname(os.path.dirname(os.path.dirname(os.path.abspath(__file__)))), "twins8")
+        with open(os.path.join(t8, "INDEX.json"), "r", encoding="utf-8") as fh:
+            for tid in json.load(fh).get(prop, []):
+                pth = os.path.join(t8, tid, "patch.diff")
+                if os.path.exists(pth):
+                    twins.append(P("twins8-" + tid, pth, None))
+    except (OSError, ValueError):
+        pass
     base = _keys(prop, root, None)
     base_triples = {(k[0], k[1], k[2]) for k in base}
     gtw = [("global", "whole-tree-unparse"), ("global", "whole-tree-local-rename"), ("global", "whole-tree-debug-log"), ("global", "whole-tree-no-annotations"), ("global", "whole-tree-return-temp"), ("global", "whole-tree-if-inverted"), ("global", "whole-tree-else-after-exit")]
